@@ -1,6 +1,6 @@
 SPECIFICATION Spec
 CONSTANTS
-  Groups = {"wallet", "blockrelay", "messenger", "controller", "cache", "validators", "attester", "registrar", "bids", "restcfg", "exechead", "syncagg", "bestvotes", "bidstrategy", "dirk", "attinfo"}
+  Groups = {"wallet", "blockrelay", "messenger", "controller", "cache", "validators", "attester", "registrar", "bids", "restcfg", "exechead", "syncagg", "bestvotes", "bidstrategy", "dirk"}
   Pinned = FALSE
   InPlace = FALSE
   Reuse = FALSE
